@@ -301,6 +301,11 @@ func genC20(r *rand.Rand, tier string, env *Env) []Case {
 	mk(c20Scenario{Running: "v1.5.0", Releases: nil}, "no-releases")
 	mk(c20Scenario{Running: "v1.5.0", Releases: []c20Release{good}, ListFail: 500}, "list-failure")
 	mk(c20Scenario{Running: "v1.5.0", Releases: []c20Release{{Tag: "v9.0.0", Prerelease: true, Platform: "linux_amd64", AssetKind: "raw", Checksum: "ok"}, {Tag: "v9.1.0", Draft: true, Platform: "linux_amd64", AssetKind: "raw", Checksum: "ok"}, good}}, "prerelease-and-draft-ignored")
+	// the newest release is incomplete (no checksum file yet): nothing older, no pre-release and no draft is a substitute
+	mk(c20Scenario{Running: "v2.0.0", Releases: []c20Release{{Tag: "v2.2.0", Platform: "linux_amd64", AssetKind: "raw", Checksum: "missing"}, good}}, "newest-incomplete-older-complete")
+	mk(c20Scenario{Running: "v2.1.0", Releases: []c20Release{{Tag: "v2.2.0", Platform: "linux_amd64", AssetKind: "raw", Checksum: "missing"},
+		{Tag: "v2.2.0-rc.1", Prerelease: true, Platform: "linux_amd64", AssetKind: "raw", Checksum: "ok"}, good}}, "newest-incomplete-prerelease-complete")
+	mk(c20Scenario{Running: "v2.1.0", Releases: []c20Release{{Tag: "v2.2.0", Platform: "linux_amd64", AssetKind: "raw", Checksum: "http-500"}, good}}, "newest-checksum-unreachable-equal-complete")
 	for i := 0; i < n; i++ {
 		sc := c20Scenario{Running: pick(r, []string{"v1.5.0", "v0.0.0-dev", "v2.1.0", "v1.5.0", "v2.5.0-rc.1", "v2.0.1-next", "v1.5.1-beta"})}
 		k := r.Intn(4)
@@ -326,7 +331,7 @@ func init() {
 	oracles["c20.selfupdate"] = oracleC20
 	properties["C20"] = &Property{ID: "C20", LeanMods: []string{"CrsProps.C20"}, Workers: 2,
 		Corr: "K11 (the binary, built from the working tree with a version stamp, against a local fake release service over HTTPS: installed bytes / unchanged / error)",
-		Rule: "14 named situations of the property (newer verified release, dev build, equal and older versions, checksum mismatch / for another file / missing / download failure, other platforms only, corrupt archive, HTTP errors, drafts and pre-releases) plus random catalogues of 0..3 releases x running versions; non-trivial = every scenario; distinct by scenario",
+		Rule: "17 named situations of the property (newer verified release, dev build, equal and older versions, checksum mismatch / for another file / missing / download failure, other platforms only, corrupt archive, HTTP errors, drafts and pre-releases) plus random catalogues of 0..3 releases x running versions; non-trivial = every scenario; distinct by scenario",
 		Gen:  genC20,
 		Assume: []string{"HTTP, TLS, archive decoding and the atomic replacement of the file are exercised, not modelled: the Lean model covers the decision (which release, whether to install) only",
 			"a running version that is not a semantic version at all (rootCmd.Version empty → \"dev\") makes go-selfupdate's MustParse panic; builds from this repository always carry v0.0.0-dev or a release version"},
